@@ -6,11 +6,9 @@ from __future__ import annotations
 from typing import TYPE_CHECKING
 
 # Third Party Imports
-from numpy import dot, exp, fill_diagonal, matmul, ones, ones_like, sqrt, zeros
-from scipy.linalg import det
+from numpy import dot, fill_diagonal, matmul, ones, ones_like, zeros
 
 # Local Imports
-from ...physics import constants as const
 from ...physics.maths import fpe_equals
 from ...physics.statistics import oneSidedChiSquareTest
 from .adaptive_filter import AdaptiveFilter
@@ -148,11 +146,8 @@ class GeneralizedPseudoBayesian1(AdaptiveFilter):
         if observations:
             # [NOTE] Required to make mutable for Ray
             self.model_likelihoods = self.model_likelihoods.copy()
-            for num, model in enumerate(self.models):
-                # Nastasi, K.N. Dissertation: Section 4.5 Algorithm 4.3 eq 4.9 pg 64
-                self.model_likelihoods[num] = exp(-0.5 * model.nis) / sqrt(
-                    (2 * const.PI) ** model.innov_cvr.shape[0] * det(model.innov_cvr),
-                )
+            # Nastasi, K.N. Dissertation: Section 4.5 Algorithm 4.3 eq 4.9 pg 64
+            self.model_likelihoods = self._calcModelLikelihoods()
 
             c = dot(self.model_likelihoods, self.mode_probabilities)
             # Check for zero model likelihoods, usually if number of models is large (~100)
